@@ -641,6 +641,9 @@ PROPS["C11"] = Prop(semantic_names=True,
          "from another shuffled order, queried before and after its own to_json/from_json. values bit-exact (the model "
          "mirrors the operation order). non-trivial = all",
     classify=_cls_curve, mode="close", exhaustive=lambda tier: False, trusted=_curve_trusted + _dual_trusted[:1],
+    # the node read-back of a directly built CurveDF goes through a mirror of its serialised form in the harness;
+    # if that mirror no longer parses the document (a renamed field, say) the harness is out of date, not the code
+    correspondence_only=lambda t, il, ml: bool(t) and t[0] == "cvnodes" and il == "err",
     assumptions=_dual_assume)
 
 PROPS["C12"] = Prop(semantic_names=True, 
@@ -649,6 +652,9 @@ PROPS["C12"] = Prop(semantic_names=True,
          "(values, tags, sensitivities), look-ups and index values with gradients and Hessians by name; float-noded curves "
          "also built directly through CurveDF::try_new and taken through order switches interleaved with JSON round trips",
     classify=_cls_curve, mode="close", exhaustive=lambda tier: False, trusted=_curve_trusted + _dual_trusted[:1],
+    # the node read-back of a directly built CurveDF goes through a mirror of its serialised form in the harness;
+    # if that mirror no longer parses the document (a renamed field, say) the harness is out of date, not the code
+    correspondence_only=lambda t, il, ml: bool(t) and t[0] == "cvnodes" and il == "err",
     assumptions=_dual_assume)
 
 
@@ -984,7 +990,8 @@ PROPS["C16"] = Prop(
     # the model's bytes / the model's writer form differ from the code's while the code's own round trip holds:
     # the model no longer describes the format (correspondence), no property is violated by that alone
     correspondence_only=lambda t, il, ml: bool(t) and ((t[0] == "ser" and il.startswith("B ") and ml.startswith("B "))
-                                                       or (t[0] == "written" and il.endswith(" ok"))),
+                                                       or (t[0] == "written" and il.endswith(" ok"))
+                                                       or (t[0] == "cvnodes" and il == "err")),
     trusted=["Lean model of the bincode 1.3 wire format and of serde's derive layout for Dual, Dual2, Number, PPSpline, "
              "NamedCal, FXRates, Curve (lean/RateslibModel/Model/Serde.lean), tied to the code by byte-exact comparison",
              "serde, serde_json, ryu, bincode, chrono's and ndarray's serde impls: implementation trusted; validated by "
